@@ -127,6 +127,27 @@ def run(chk):
     cases = gather_programs(chk, quick, rng, W)
     res = chk.replay("pipeline", cases, "pipe", workers=W, timeout="90s")
     chk.absorb("pipeline", cases, res, crash_sig=crash_sig(prop))
+    if prop == "C05":
+        # hand-written proto files beyond the repository's own: the descriptor sets of ProtoShapes with every buf.validate / j5
+        # annotation and its option values (numbers that need all their digits included)
+        import p_shapes
+        shapes, seen = [], set()
+        for name, cfg, tiers in p_shapes.EXHAUSTIVE:
+            if name not in ("focus_ann", "focus_opt", "focus_card", "pair_ann") or (chk.tier not in tiers and name != "focus_ann"):
+                continue
+            r2 = chk.tlc("ProtoShapesMC.tla", cfg, "shapes_" + name, workers=W, timeout=3000)
+            for c in r2.cases:
+                k = p_shapes.case_key(c)
+                if k not in seen:
+                    seen.add(k)
+                    shapes.append(c)
+            r2.cases = []
+        if quick and len(shapes) > 8000:
+            random.Random(chk.seed).shuffle(shapes)
+            shapes = shapes[:8000]
+        sres = chk.replay("shapes-c05", shapes, "shapes", workers=W, timeout="30s")
+        chk.absorb("shapes-c05", shapes, sres, crash_sig=crash_sig(prop))
+        chk.extra_cov["raw_proto_descriptor_sets_printed"] = len(shapes)
     if prop == "C15":
         # "... and from generated raw proto files using the J5-supported subset": the descriptor sets of ProtoShapes (C18's
         # program space: every scalar kind and cardinality, oneof forms, maps, well-known types, message graphs, consistent
